@@ -44,3 +44,39 @@ Proof. reflexivity. Qed.
 Theorem tie_get_virtual_addr : forall offset s,
   gen_get_virtual_addr offset (sh_addr s) (sh_offset s) = get_virtual_addr offset s.
 Proof. reflexivity. Qed.
+
+(* relocation info unpacking: get_sym_and_type<T>::get_r_sym / get_r_type for the four entry types *)
+From Coq Require Import Lia ZifyBool ZifyN.
+Lemma wrap_small' w v : v < 2 ^ w -> wrap w v = v.
+Proof. intros H. unfold wrap. now apply N.mod_small. Qed.
+Lemma wrap_lt' w v : wrap w v < 2 ^ w.
+Proof. unfold wrap. apply N.mod_lt. apply N.pow_nonzero. discriminate. Qed.
+
+Theorem tie_r_sym_32 : forall info, gen_get_r_sym_Elf32_Rel info = r_sym C32 info /\ gen_get_r_sym_Elf32_Rela info = r_sym C32 info.
+Proof.
+  intro info. unfold gen_get_r_sym_Elf32_Rel, gen_get_r_sym_Elf32_Rela, r_sym, wrap32.
+  assert (H : N.shiftr (wrap 32 info) 8 < 2 ^ 32).
+  { rewrite N.shiftr_div_pow2. pose proof (wrap_lt' 32 info). apply N.le_lt_trans with (wrap 32 info); [|exact H].
+    apply N.div_le_upper_bound; [discriminate|]. change (2 ^ 8) with 256. lia. }
+  rewrite (wrap_small' 32 _ H). split; reflexivity.
+Qed.
+
+Theorem tie_r_type_32 : forall info, gen_get_r_type_Elf32_Rel info = r_type C32 info /\ gen_get_r_type_Elf32_Rela info = r_type C32 info.
+Proof.
+  intro info. unfold gen_get_r_type_Elf32_Rel, gen_get_r_type_Elf32_Rela, r_type, wrap8.
+  assert (E : wrap 8 (wrap 32 info) = wrap 8 info).
+  { unfold wrap. change (2 ^ 32) with (2 ^ 8 * 2 ^ 24). rewrite N.mod_mul_r by discriminate.
+    rewrite N.mul_comm, N.mod_add by discriminate. apply N.mod_mod. discriminate. }
+  rewrite E. assert (H : wrap 8 info < 2 ^ 32) by (pose proof (wrap_lt' 8 info); change (2 ^ 8) with 256 in *; change (2 ^ 32) with 4294967296; lia).
+  rewrite (wrap_small' 32 _ H). split; reflexivity.
+Qed.
+
+Theorem tie_r_sym_64 : forall info, gen_get_r_sym_Elf64_Rel info = r_sym C64 info /\ gen_get_r_sym_Elf64_Rela info = r_sym C64 info.
+Proof. intro info. split; reflexivity. Qed.
+
+Theorem tie_r_type_64 : forall info, gen_get_r_type_Elf64_Rel info = r_type C64 info /\ gen_get_r_type_Elf64_Rela info = r_type C64 info.
+Proof.
+  intro info. unfold gen_get_r_type_Elf64_Rel, gen_get_r_type_Elf64_Rela, r_type, wrap32.
+  change 4294967295 with (N.ones 32). rewrite land_ones_mod. fold (wrap 32 info).
+  unfold wrap. rewrite N.mod_mod by discriminate. split; reflexivity.
+Qed.
